@@ -179,4 +179,3 @@ Definition enabled (s : state) : list (list N) :=
        else [Create f]) (seq 0 (length (futs s)))
      ++ [SetEv; ResetEv; IsSet]).
 
-Definition machine : Base.machine := mkMachine state minit mstep enabled (fun s => s) (fun _ _ _ => true).
